@@ -196,6 +196,18 @@ def word_level_hint(tr, d, tag):
                                ("queue #%d: %s (%s) by thread %s is not a transition its DQState operator allows from the word the queue was in" % (
                                     q, rec.get("f"), rec.get("op"), rec.get("t")))
                         best = best or cand
+        lk = validate_trace("ChainLockTrace.tla", "ChainLockTrace.cfg", tr, nthreads=nt, metaname="C03_hint_%s_lock" % tag)
+        if not lk.accepted and lk.maxl:
+            lines = open(lk.trace_with_header).read().splitlines()
+            if lk.maxl - 1 < len(lines):
+                rec = json.loads(lines[lk.maxl - 1])
+                if rec.get("e") in ("Start", "End"):
+                    best = ("item %s (%s) of queue #%s %sed on thread %s, which did not own the drain lock of every serial level below "
+                            "that queue (ChainLockTrace L1)" % (rec.get("i"), rec.get("k"), rec.get("q"), rec["e"].lower(), rec.get("t"))) + \
+                           ("; " + best if best else "")
+                elif rec.get("e") == "St":
+                    best = ("queue #%s was drained by thread %s, which did not own the drain lock of its serial target (ChainLockTrace L2)"
+                            % (rec.get("q"), rec.get("t"))) + ("; " + best if best else "")
         return ("; word-level: " + best) if best else ""
     except Exception as ex:      # never let the hint decide anything
         return ""
